@@ -62,7 +62,11 @@ Step ==
      ELSE IF ok /\ def
      THEN \E want \in {Want(a, ev)} :
             /\ nbad' = IF ConformsEv(a, ev) THEN nbad
-                       ELSE Flag(nbad, FALSE, sig("wrong_result", IF ev.shape # want.shape THEN "shape" ELSE "elements"), rec)
+                       ELSE Flag(nbad, FALSE, sig("wrong_result",
+                                  \* a layout-changing operation can only return elements of its source
+                                  IF ev.op.op # "map" /\ ~IsAppend(ev.op) /\ ~(Range(ev.data) \subseteq Range(a.data))
+                                  THEN "elements_not_from_source"
+                                  ELSE IF ev.shape # want.shape THEN "shape" ELSE "elements"), rec)
             \* a chain continues on the REAL result: after a flagged step resynchronise on what the
             \* code returned, otherwise advance on the specified successor
             /\ a' = IF ConformsEv(a, ev) THEN want ELSE T(ev.shape, ev.data)
